@@ -7,6 +7,7 @@ PROPERTY = {
     "assumptions": [
         "induction over the operation history (each operation verified from an arbitrary valid state) is a paper step",
         "capacity before the operation in {0, 8, 16}; appended blocks <= 9 bytes; formatter output <= 9 bytes (bounded stand-in, labelled B)",
+        "str_big_* units: the loop-free operations (setm, catc, getc, catn/cat, getn, setn, exit) again with capacity, length and block length symbolic up to 1024 bytes (4096 in the thorough tier): one large array, an allocator stub that resizes in place (stale-pointer defects are left to the moving allocator of the small units), memcpy abstracted to the transfer of a ghost witness byte",
         "a_str_setm_ (unchecked primitive) is only asked for a capacity >= the current length; a_str_setn_ (unchecked) is not exercised",
         "trim with the isspace() form (n == 0) is not covered (isspace on a plain char >= 0x80 is outside ISO C's domain); explicit sets of 1-2 bytes are",
     ],
@@ -36,3 +37,17 @@ UNITS = [
     S("catf", ["a_str_catv"], replay=None),
     S("utf_catc", ["a_utf_catc"]),
 ]
+# large-capacity units: symbolic capacity/length up to 1024 (4096 thorough) bytes (one big array, in-place allocator stub, abstract memcpy with a ghost witness byte)
+def G(name, fns, sv="cadical", **kw):
+    return [U("str_big%s_%s" % (tag, name), "str_big.c", "h_big_" + name, level="B", functions=fns, min_obl=5, replay=None, timeout=to, defines=["ARENA=%du" % cap], tiers=tiers, solver=sv,
+              bound="capacity and length symbolic up to %d bytes, block lengths up to %d; allocator resizes in place" % (cap, cap), **kw)
+            for tag, cap, to, tiers in (("", 1024, 300, ("quick", "thorough")), ("4k", 4096, 1800, ("thorough",)))]
+UNITS += sum([
+    G("setm", ["a_str_setm", "a_str_setm_"], key=["rounded up to the pointer size"]),
+    G("catc", ["a_str_catc", "a_str_catc_"], key=["catc: NUL directly after"]),
+    G("getc", ["a_str_getc", "a_str_getc_"], key=["getc: returns the last byte"]),
+    G("catn", ["a_str_catn", "a_str_catn_", "a_str_cat", "a_str_cat_"], key=["appended byte for byte"]),
+    G("catn0", ["a_str_catn", "a_str_catn_"], key=["catn of an empty block"]),
+    G("getn", ["a_str_getn", "a_str_getn_"], sv=None, key=["handed out in order"]),  # MiniSat finishes (80 s), CaDiCaL does not
+    G("setn_exit", ["a_str_setn", "a_str_exit"], key=["handed over NUL-terminated"]),
+], [])
